@@ -36,7 +36,7 @@ REQUIRED_BRANCHES = ['query_inside', 'query_outside_low', 'query_outside_high', 
                      'chi_cm2_g', 'chi_m2_kg', 'chi_cm2_kg', 'chi_m2_g', 'via_direct', 'via_pickle', 'via_table', 'via_file',
                      'rows_2', 'rows_200',
                      'hist_chi_scale', 'hist_chi_new', 'hist_wav_unit', 'hist_wav_new', 'hist_table', 'hist_pickle',
-                     'hist_alias_from_table', 'hist_alias_to_table', 'hist_alias_pickle']
+                     'arr_f8', 'arr_f4', 'arr_i8', 'arr_be', 'arr_ro', 'hist_alias_from_table', 'hist_alias_to_table', 'hist_alias_pickle']
 ASSUMPTIONS = ['IEEE rounding is not modelled: patterns compared within 1e-9 relative (exactly 0 outside the table)',
                'decision margin: a query (or V used as a query) that, converted exactly to the table unit, lies within 4 ulp of '
                'the first / last node sits on the jump between the tabulated end value and 0; the float unit conversion '
@@ -54,6 +54,7 @@ BOUNDARY_FINDING = 'Extinction.get_av:boundary-unit-conversion'   # match key fo
 REPORT_BOUNDARY_FINDING = False
 BOUNDARY_NOTES = []
 VIAS = ['direct', 'pickle', 'table', 'file']
+ARR_KINDS = ['f8', 'f8', 'f8', 'f4', 'i8', 'be', 'ro']
 CHI_UNITS = ['cm2/g', 'm2/kg', 'cm2/kg', 'm2/g']
 
 
@@ -129,13 +130,29 @@ def gen_case(rng, directed=None):
         elif shape == '2d' and len(vals) % 2:
             vals = vals[:-1]
         queries.append(dict(unit=qunit, values=vals, shape=shape))
-    case = dict(tab_unit=tab_unit, chi_unit=chi_unit, via=via, wav=wav, chi=chi, queries=queries, v_node=v_node,
+    # numeric representation of the arrays handed to the wav / chi setters: float64, float32, integer opacities,
+    # big-endian float64, read-only float64; the model gets the exact stored values
+    arr = directed.get('arr') or (rng.choice(ARR_KINDS) if via != 'file' else 'f8')
+    if arr == 'f4':
+        w32 = [float(np.float32(w)) for w in wav]
+        v32 = in_unit('5.5', -1, tab_unit)
+        if v_node or not all(a < b for a, b in zip(w32[:-1], w32[1:])) or not (w32[0] < v32 < w32[-1]):
+            arr = 'f8'
+        else:
+            wav = w32
+            chi = [float(np.float32(c)) for c in chi]
+    elif arr == 'i8':
+        chi = [float(max(1, int(round(c)))) for c in chi]
+    case = dict(tab_unit=tab_unit, chi_unit=chi_unit, via=via, wav=wav, chi=chi, queries=queries, v_node=v_node, arr=arr,
                 chi_factor=rng.choice([2., 0.1, 1e3, 7.3, 1e-4]),
                 alt_unit=rng.choice([k for k in UNIT_EXP if k != tab_unit]))
     # history on the one object: each step is followed by get_av on all queries
     hist = directed.get('history')
     if hist is None:
         hist = [rng.choice(HIST_OPS) for _ in range(rng.randint(1, 3))]
+    if arr == 'f4':
+        # single-precision arrays stay single precision under `chi * c` / `.to(unit)`: keep to steps that hold exact values
+        hist = [op for op in hist if op not in ('chi_scale', 'wav_unit')]
     case['history'] = [gen_step(rng, op, len(wav), tab_unit) for op in hist]
     if via == 'file':
         ncols = rng.randint(2, 5)
@@ -169,15 +186,17 @@ def gen_step(rng, op, n, tab_unit):
 
 DIRECTED = [
     dict(rows=2, tab_unit='micron', chi_unit='cm2/g', via='direct', query_units=['micron', 'nm', 'm'],
-         history=['chi_scale', 'alias_from_table', 'chi_new']),
+         history=['chi_scale', 'alias_from_table', 'chi_new'], arr='i8'),
     dict(rows=200, tab_unit='nm', chi_unit='m2/kg', via='pickle', query_units=['nm', 'micron'],
-         history=['chi_new', 'alias_to_table', 'wav_unit', 'chi_scale']),
+         history=['chi_new', 'alias_to_table', 'wav_unit', 'chi_scale'], arr='be'),
     dict(rows=5, tab_unit='m', chi_unit='cm2/g', via='table', query_units=['m', 'micron'],
-         history=['wav_new', 'alias_pickle', 'chi_scale', 'table', 'alias_from_table']),
+         history=['wav_new', 'alias_pickle', 'chi_scale', 'table', 'alias_from_table'], arr='ro'),
     dict(rows=12, tab_unit='micron', chi_unit='m2/kg', via='file', query_units=['micron', 'm'],
          history=['pickle', 'chi_scale', 'wav_new']),
     dict(rows=200, tab_unit='m', chi_unit='m2/kg', via='file', query_units=['nm'], history=['chi_scale']),
     dict(rows=2, tab_unit='nm', chi_unit='cm2/g', via='table', query_units=['nm', 'm'], history=['table', 'pickle']),
+    dict(rows=8, tab_unit='nm', chi_unit='m2/kg', via='table', query_units=['nm', 'micron'], arr='f4',
+         history=['table', 'chi_new', 'alias_from_table']),
     dict(rows=3, tab_unit='micron', chi_unit='cm2/g', via='pickle', query_units=['micron'],
          history=['wav_unit', 'chi_new', 'wav_new']),
 ]
@@ -207,6 +226,7 @@ def units():
 
 
 def build(case, d, wav=None, chi=None, tab_unit=None, chi_unit=None, via=None):
+    plain = wav is not None or chi is not None      # metamorphic variants are built from plain float64 arrays
     """the Extinction object under test, through the public API"""
     from astropy import units as u
     from sedfitter.extinction import Extinction
@@ -228,8 +248,14 @@ def build(case, d, wav=None, chi=None, tab_unit=None, chi_unit=None, via=None):
                 fh.write(' '.join('%r' % float(v) for v in row) + '\n')
         return Extinction.from_file(path, columns=tuple(fi['columns']), wav_unit=wu, chi_unit=cu)
     e = Extinction()
-    e.wav = np.array(wav, dtype=float) * wu
-    e.chi = np.array(chi, dtype=float) * cu
+    kind = case.get('arr', 'f8') if not plain else 'f8'
+    wa = np.array(wav, dtype={'f4': np.float32, 'be': '>f8'}.get(kind, float))
+    ca = np.array(chi, dtype={'f4': np.float32, 'be': '>f8', 'i8': np.int64}.get(kind, float))
+    if kind == 'ro':
+        wa.setflags(write=False)
+        ca.setflags(write=False)
+    e.wav = wa * wu
+    e.chi = ca * cu
     if via == 'pickle':
         e = pickle.loads(pickle.dumps(e))
     elif via == 'table':
@@ -460,7 +486,7 @@ def scribble_table(t, step, tab_unit):
 
 def run_case(case):
     d = tempfile.mkdtemp(prefix='c14_')
-    branches = {'tab_' + case['tab_unit'], 'chi_' + case['chi_unit'].replace('/', '_'), 'via_' + case['via'],
+    branches = {'arr_' + case.get('arr', 'f8'), 'tab_' + case['tab_unit'], 'chi_' + case['chi_unit'].replace('/', '_'), 'via_' + case['via'],
                 'rows_%d' % len(case['wav']) if len(case['wav']) in (2, 200) else 'rows_other'}
     try:
         drv = common.driver()
